@@ -115,10 +115,10 @@ def run(ctx):
         norm = 'raw' if raw else 'log2CPM'
         flat_cell = None
         if not raw and rng.random() < 0.5:
-            # a cell whose profile varies ~1e-8 times less than its neighbours' (exact dyadic values, so the
+            # a cell whose profile varies ~1e-9 times less than its neighbours' (exact dyadic values, so the
             # correlation arithmetic is as stable as for any other cell)
             flat_cell = rng.randrange(len(sc.cell_ids))
-            sc.query[flat_cell] = np.array([4.0 + rng.randrange(0, 97) * 2.0 ** -24 for _ in sc.query_genes])
+            sc.query[flat_cell] = np.array([4.0 + rng.randrange(0, 97) * 2.0 ** -33 for _ in sc.query_genes])
         ctx.dist('near_flat_cell', flat_cell is not None)
         base = paired.run_once(ctx, sc, f'b{k}', normalization=norm, **var)
         desc = {'kind': 'paired-run', 'tree': sc.tree.data, 'markers': sc.markers, 'cell_ids': sc.cell_ids,
